@@ -17,6 +17,24 @@ def cnode(d):
     return f"(Node {cn(name_id(d['name']))} {cz(-7 if d.get('hp', 0) is None else d.get('hp', 0))} {cn(d['gid'])} {cb(d['stateful'])} {cn(d['szout'])} {kind})"
 
 
+def csym(sym, case):
+    op, args = sym
+    bad = 999
+    if op[0] == 'functor' and op[2] in ('apply', 'train') and op[1] >= 0:
+        cop = f"(C01Compile.OFunctor {cn(op[1])} {cb(op[2] == 'train')} {cb(op[3])})"
+    elif op[0] == 'loader' and op[1] >= 0:
+        cop = f"(C01Compile.OLoader {cn(case['nodes'][op[1]]['gid'])})"
+    elif op[0] == 'dumper':
+        cop = 'C01Compile.ODumper'
+    elif op[0] == 'committer':
+        cop = 'C01Compile.OCommitter'
+    elif op[0] == 'getter':
+        cop = f'(C01Compile.OGetter {cn(op[1])})'
+    else:
+        cop = f'(C01Compile.OGetter {cn(bad)})'  # unclassifiable instruction: can never match the model
+    return cp(cop, cl([cn(a if a >= 0 else bad) for a in args], 'nat'))
+
+
 def py_eval(case):
     """Oracle: direct evaluation of the task graph as the property text describes it."""
     nodes = case['nodes']
@@ -44,22 +62,26 @@ def py_eval(case):
 
 class C01(core.Prop):
     ID = 'C01'
-    IMPORTS = 'From FV Require Import Lib.Sym Model.C01.'
-    CASE_TYPE = 'C01.case'
-    CHECK_FUN = 'C01.check_case'
-    EXTRA_TARGETS = ['Model/C01.vo', 'Lib/Corr.vo']
+    IMPORTS = 'From FV Require Import Lib.Sym Model.C01 Model.C01Compile.'
+    CASE_TYPE = 'C01Compile.fcase'
+    CHECK_FUN = 'C01Compile.check_fcase'
+    EXTRA_TARGETS = ['Model/C01.vo', 'Model/C01Compile.vo', 'Lib/Corr.vo']
     RULE = (
         'random well-formed segments of 3-9 nodes: a source, stateless workers with 1-2 inputs and 1-3 outputs (unused '
         'ports allowed), stateful groups with one trained member fed on train/label from arbitrary upstream ports and 0-2 '
         'applied forks, applied-only stateful workers, a collecting tail; connection calls issued in a random order (this '
         'varies the traversal order, e.g. fork visited before its trained sibling); without assets and with a random '
         'subset/order of persistent groups with or without previous states. The real flow.compile output is executed by '
-        'an independent interpreter; sink term, committed states and loaded offsets are compared with the denotation. '
+        'an independent interpreter; sink term, committed states and loaded offsets are compared with the denotation. The '
+        'emitted table itself (instruction kinds, owner nodes, preset flags, argument positions, emission order) must equal '
+        'the output of the Gallina compiler model under the recorded Table.add order, be accepted by the proved validator, '
+        'and evaluate inside Coq to the same sink term. '
         'Non-trivial = a multi-output node or a fork group with applied members.'
     )
     ASSUMPTIONS = [
         'actors are uninterpreted symbols (free terms): equality of terms implies equality under every payload and actor function',
-        'the compiler internals (Linkage, Index, alias merge, stub pruning) are not modelled: the tie is the executed observable behaviour',
+        'the compiler internals (Linkage, Index, alias merge, stub pruning) are modelled executably (Model/C01Compile.v) and tied by symbol-for-symbol comparison; acceptance of the model output by the validator is computed per case, not proved for all graphs',
+        'the traversal order (Traversal.each over hash-ordered subscription sets) is recorded from the real run and is an input of the compiler model',
         'uuid generation is irrelevant to the observations',
     ]
 
@@ -143,17 +165,24 @@ class C01(core.Prop):
         return [impl.observe(c) for c in cases]
 
     def coq_case(self, case, obs):
-        if 'error' in obs or len(obs['sink']) != 1:
-            return '(C01.CSegment nil None 0%nat (TProj 0%nat TNone) None nil)'
         pers = case.get('persistent')
         if pers is None:
             assets = 'None'
         else:
             rows = [cp(cn(case['nodes'][i]['gid']), cterm(case['previous'].get(str(i)))) for i in pers]
             assets = '(Some ' + cl(rows, 'nat * term') + ')'
+        nodes = cl([cnode(d) for d in case['nodes']], 'node')
+        visit = cl([cn(i) for i in obs.get('visit', [])], 'nat')
+        if 'error' in obs or len(obs['sink']) != 1:
+            behaviour = '(C01.CSegment nil None 0%nat (TProj 0%nat TNone) None nil)'
+            table = f"(C01Compile.CTable {nodes} {assets} {visit} {cn(case['tail'])} None TNone)"
+            return f'(C01Compile.FCase {behaviour} {table})'
         commit = co(obs['committed'], lambda l: cl([cterm(t) for t in l], 'term'), 'list term')
-        return (f"(C01.CSegment {cl([cnode(d) for d in case['nodes']], 'node')} {assets} {cn(case['tail'])} "
-                f"{cterm(obs['sink'][0])} {commit} {cl([cn(x) for x in obs['loads'] or []], 'nat')})")
+        behaviour = (f"(C01.CSegment {nodes} {assets} {cn(case['tail'])} "
+                     f"{cterm(obs['sink'][0])} {commit} {cl([cn(x) for x in obs['loads'] or []], 'nat')})")
+        real = '(Some ' + cl([csym(s, case) for s in obs['table']], 'C01Compile.sym') + ')'
+        table = f"(C01Compile.CTable {nodes} {assets} {visit} {cn(case['tail'])} {real} {cterm(obs['sink'][0])})"
+        return f'(C01Compile.FCase {behaviour} {table})'
 
     def oracle(self, case, obs):
         if 'error' in obs:
